@@ -297,7 +297,7 @@ func (s *session) kill() error {
 		}
 		s.mu.Unlock()
 		// let the loss be noticed (keepalive timeout 2 s)
-		time.Sleep(2500 * time.Millisecond)
+		time.Sleep(s.sys.Stretch(2500 * time.Millisecond))
 	}
 	return nil
 }
@@ -387,6 +387,7 @@ func runCase(c Case) (err error) {
 		s.sys.KeepalivePeriod = 200 * time.Millisecond
 		s.sys.KeepaliveTimeout = 2 * time.Second
 		s.sys.KeepaliveRpcTimeout = time.Second
+		s.sys.Relax()
 		opts := []exec.Option{exec.Bigmachine(s.sys), exec.Parallelism(4)}
 		if c.MC {
 			opts = append(opts, exec.MachineCombiners)
